@@ -503,19 +503,9 @@ pub fn exch_step_2a(
         pre_append.extend_from_slice(&g3);
 
         sk = kdf(&pre_append, klen);
-        fn is_zero(x: &Vec<u8>, klen: usize) -> bool {
-            let mut ret = true;
-            for i in 0..klen {
-                if x[i] != 0 {
-                    ret = false;
-                }
-            }
-            ret
-        }
-
-        if !is_zero(&sk, klen) {
-            break;
-        }
+        // Nothing in this computation changes from one pass to the next (the initiator has no
+        // fresh randomness at this step), so an all-zero key cannot be "retried": return it.
+        break;
     }
     Ok(sk)
 }
